@@ -43,7 +43,7 @@ class ZzUnprintable(Exception):
 
 EXC = {
     'ValueError': ValueError, 'KeyError': KeyError, 'TypeError': TypeError, 'AssertionError': AssertionError,
-    'RuntimeError': RuntimeError, 'ZzCustomBoom': ZzCustomBoom, 'ZzLookup': ZzLookup, 'ZzUnprintable': ZzUnprintable, 'OSError': OSError,
+    'ZzRaisedFromRpcError': None, 'ZzRaisedWhileHandlingRpcError': None, 'RuntimeError': RuntimeError, 'ZzCustomBoom': ZzCustomBoom, 'ZzLookup': ZzLookup, 'ZzUnprintable': ZzUnprintable, 'OSError': OSError,
     'ZeroDivisionError': ZeroDivisionError, 'AttributeError': AttributeError, 'StopIteration': StopIteration,
     'UnicodeDecodeError': None, 'ValidationError': None, 'DeserializationError': None,  # built specially
     'TimeoutError': TimeoutError, 'NotImplementedError': NotImplementedError, 'RecursionError': RecursionError,
@@ -62,6 +62,17 @@ def make_exc(name: str, marker: str) -> Exception:
     if name == 'DeserializationError':  # a library (non protocol) exception raised from inside a method body
         from pjrpc.common.exceptions import DeserializationError
         return DeserializationError(marker)
+    if name in ('ZzRaisedFromRpcError', 'ZzRaisedWhileHandlingRpcError'):
+        # an ordinary exception raised `from` a protocol error / while one was being handled inside the method body: still an ordinary
+        # exception (what matters is what the method raised, not what it had caught)
+        from pjrpc.common.exceptions import JsonRpcError
+        e = RuntimeError(marker)
+        inner = JsonRpcError(code=7, message='inner protocol error', data={'inner': True})
+        if name == 'ZzRaisedFromRpcError':
+            e.__cause__ = inner
+        else:
+            e.__context__ = inner
+        return e
     return EXC[name](marker)
 
 
